@@ -392,7 +392,7 @@ def splice (f : Bytes) (o old : Nat) (new : Bytes) : Bytes := f.take o ++ new ++
 /-- the rule of `__update_offset_table` / `__update_tfhd`: `o + delta if offset < o else o` -/
 def patchEntry (offset : Nat) (delta : Int) (e : Nat) : Int := if offset < e then e + delta else e
 
-/-- `struct.pack('>I' / '>Q', v)`: struct.error outside the range -/
+/-- `struct.pack('>I' / '>Q', v)`: struct.error outside the range (`err` = what the caller turns it into) -/
 def packBE (w : Nat) (v : Int) (err : PyErr) : Except PyErr Bytes :=
   if v < 0 ∨ v ≥ (256 ^ w : Nat) then .error err else .ok (toBE w v.toNat)
 
@@ -511,6 +511,99 @@ def saveRegion (f : Bytes) (newOf : Region → Bytes) : Option PyErr × Bytes :=
     match regionOf atoms with
     | none => (some .key, f)
     | some R => saveAt f atoms R.parents R.offset R.length (newOf R)
+
+
+/-! ### side conditions of the offset theorems (Props/C10), all decidable -/
+
+/-- an offset together with the `n` bytes it addresses avoids the replaced region `[o, o+old)`:
+it ends before `o`, or it starts after `o` and not before the end of the region.  (`e = o` is
+excluded: the code compares `offset < e`, so an entry equal to the region start is not patched.) -/
+def Clear (o old e n : Nat) : Prop := e + n ≤ o ∨ (o < e ∧ o + old ≤ e)
+
+instance (o old e n : Nat) : Decidable (Clear o old e n) := by unfold Clear; infer_instance
+
+/-- the bytes `__update_offset_table` reads: count(4) and entries -/
+def tblData (g : Bytes) (off len : Nat) : Bytes := readAt g (off + 12) (len - 12)
+def tblCnt (g : Bytes) (off len : Nat) : Nat := ofBE ((tblData g off len).take 4)
+/-- the entries of the table at `off` -/
+def tblEntries (g : Bytes) (w off len : Nat) : List Nat := entriesOf w (tblCnt g off len) ((tblData g off len).drop 4)
+
+/-- the bytes `__update_tfhd` reads: flags(3) track_ID(4) base_data_offset(8) … -/
+def tfhdData (g : Bytes) (off len : Nat) : Bytes := readAt g (off + 9) (len - 9)
+def tfhdHasBase (g : Bytes) (off len : Nat) : Prop := ofBE ((tfhdData g off len).take 3) % 2 = 1
+def tfhdBaseAt (g : Bytes) (off len : Nat) : Nat := ofBE (((tfhdData g off len).drop 7).take 8)
+
+def parentRange (p : PAtom) : Nat × Nat := (p.offset, p.offset + 16)
+
+/-- the extent of a visited table atom where it lies after the save, from the first byte that
+may be rewritten (`+ 16`) to its end -/
+def tableRange (delta : Int) (o : Nat) (t : Nat × PAtom) : Nat × Nat :=
+  (shifted t.2 delta o + 16, shifted t.2 delta o + t.2.length)
+
+/-- every byte range the bookkeeping of a save may write to -/
+def ranges (parents atoms : List PAtom) (delta : Int) (o : Nat) : List (Nat × Nat) :=
+  parents.map parentRange ++ (visited atoms).map (tableRange delta o)
+
+/-- the visited table atoms are long enough for the fixed offsets the code reads at
+(`stco`/`co64`: count at +12; `tfhd`: flags at +9, base offset at +16..+24) -/
+def TablesSized (atoms : List PAtom) : Prop :=
+  ∀ t ∈ visited atoms, if t.1 = 0 then 24 ≤ t.2.length else 12 ≤ t.2.length
+
+/-- where a visited table atom lies after the save -/
+def extentOf (delta : Int) (o : Nat) (t : Nat × PAtom) : Nat × Nat :=
+  (shifted t.2 delta o, shifted t.2 delta o + t.2.length)
+
+def Disjoint (a b : Nat × Nat) : Prop := a.2 ≤ b.1 ∨ b.2 ≤ a.1
+
+instance (a b : Nat × Nat) : Decidable (Disjoint a b) := by unfold Disjoint; infer_instance
+
+/-- where they lie after the save, the visited table atoms are pairwise disjoint and none of them
+overlaps the 16 bytes at the start of a path atom (where `__update_parents` writes) -/
+def ExtentsDisjoint (parents atoms : List PAtom) (delta : Int) (o : Nat) : Prop :=
+  ((visited atoms).map (extentOf delta o)).Pairwise Disjoint ∧
+    ∀ p ∈ parents, ∀ t ∈ visited atoms, Disjoint (parentRange p) (extentOf delta o t)
+
+instance (parents atoms : List PAtom) (delta : Int) (o : Nat) : Decidable (ExtentsDisjoint parents atoms delta o) := by
+  unfold ExtentsDisjoint; infer_instance
+
+/-- the side conditions under which the bookkeeping of a save is analysed: the visited table
+atoms are long enough for the fixed positions the code reads, lie inside the file and avoid the
+replaced region, and (where they lie after the save) they and the size fields of the path atoms
+are pairwise disjoint.  All four hold for a file whose atoms tile it (strict walker) when the
+region is the `ilst`/`free` pair or the insertion point; all four are decidable. -/
+def SaveSafe (f : Bytes) (atoms parents : List PAtom) (o old : Nat) (delta : Int) : Prop :=
+  TablesSized atoms ∧ ExtentsDisjoint parents atoms delta o ∧
+    (∀ t ∈ visited atoms, Clear o old t.2.offset t.2.length) ∧
+    (∀ t ∈ visited atoms, t.2.offset + t.2.length ≤ f.length)
+
+instance (atoms : List PAtom) : Decidable (TablesSized atoms) := by unfold TablesSized; infer_instance
+
+instance (f : Bytes) (atoms parents : List PAtom) (o old : Nat) (delta : Int) :
+    Decidable (SaveSafe f atoms parents o old delta) := by unfold SaveSafe; infer_instance
+
+/-- the `n` bytes at `e` are media in the sense needed: they avoid the replaced region and, where
+they lie after the save, every field the bookkeeping may rewrite -/
+def MediaClear (parents atoms : List PAtom) (o old : Nat) (delta : Int) (e n : Nat) : Prop :=
+  Clear o old e n ∧ ∀ r ∈ ranges parents atoms delta o,
+    (patchEntry o delta e).toNat + n ≤ r.1 ∨ r.2 ≤ (patchEntry o delta e).toNat
+
+instance (parents atoms : List PAtom) (o old : Nat) (delta : Int) (e n : Nat) :
+    Decidable (MediaClear parents atoms o old delta e n) := by unfold MediaClear; infer_instance
+
+/-- has the `tfhd` at `off` a base data offset (flag bit 0) — as a Bool for the driver -/
+instance (g : Bytes) (off len : Nat) : Decidable (tfhdHasBase g off len) := by unfold tfhdHasBase; infer_instance
+
+/-- the offsets recorded in the table atom `t` of `f` -/
+def entriesOfTable (f : Bytes) (t : Nat × PAtom) : List Nat :=
+  if t.1 = 0 then (if tfhdHasBase f t.2.offset t.2.length then [tfhdBaseAt f t.2.offset t.2.length] else [])
+  else tblEntries f t.1 t.2.offset t.2.length
+
+/-- all hypotheses of `chunk_offsets_follow_partial` hold for this save, and every recorded offset
+is media (`MediaClear`) for windows of `n` bytes: the theorem then says every offset follows -/
+def covered (f : Bytes) (atoms parents : List PAtom) (o old : Nat) (delta : Int) (n : Nat) : Bool :=
+  decide ((atoms.filter (·.name = nMoov)).length = 1) && decide ((atoms.filter (·.name = nMoof)).length ≤ 1) &&
+    decide (SaveSafe f atoms parents o old delta) &&
+    (allTables atoms).all fun t => (entriesOfTable f t).all fun e => decide (MediaClear parents atoms o old delta e n)
 
 /-! ### the same bookkeeping on the tree (what the theorems of Props/C10 are about) -/
 
